@@ -37,9 +37,9 @@ UNIVARIATE = ("ADWIN", "CUSUM", "PageHinkley", "CDBD")
 DETS = {"KdqTreeStreaming": 10, "KdqTreeBatch": 12, "PCACD": 6, "ADWIN": 30, "CUSUM": 30, "PageHinkley": 30, "DDM": 24, "EDDM": 24,
         "STEPD": 20, "LinearFourRates": 8, "ADWINAccuracy": 16, "HDDDM": 24, "CDBD": 20, "NNDVI": 14}
 HEAVY = ["KdqTreeStreaming", "KdqTreeBatch", "PCACD"]
-X_KINDS = ["rows2", "rows2_df", "rows0", "width+1", "width-1", "df_width+1", "renamed", "multicol", "multicol_1d", "multicol_series"]
+X_KINDS = ["rows2", "rows2_df", "rows2_df_other_names", "rows0", "width+1", "width-1", "df_width+1", "renamed", "multicol", "multicol_1d", "multicol_series"]
 Y_KINDS = ["y_true_multi", "y_pred_multi"]
-B_KINDS = ["rows1", "rows1_df", "width+1", "width-1", "df_width+1", "renamed", "multicol"]
+B_KINDS = ["rows1", "rows1_df", "rows1_df_other_names", "width+1", "width-1", "df_width+1", "renamed", "multicol"]
 ALL_KINDS = X_KINDS + Y_KINDS + [k for k in B_KINDS if k not in X_KINDS]
 ALL_KINDS = ALL_KINDS + ["ref:" + k for k in B_KINDS]   # the same malformed payload handed to set_reference
 
@@ -139,6 +139,10 @@ def bad_x(k, kind, d, nrows, names_established):
         return fill(2, d)
     if kind == "rows2_df" and k != "batch":
         return pd.DataFrame(fill(2, d), columns=cols)
+    if kind == "rows2_df_other_names" and k != "batch":
+        return pd.DataFrame(fill(2, d), columns=["q", "r", "s", "t"][:d])   # wrong row count AND labels nobody else uses
+    if kind == "rows1_df_other_names" and k == "batch":
+        return pd.DataFrame(fill(1, d), columns=["q", "r", "s", "t"][:d])
     if kind == "rows0" and k != "batch":
         return np.zeros((0, d))
     if kind == "rows1" and k == "batch":
